@@ -430,3 +430,256 @@ Example write_discipline_example :
           (TRecord [TU8; TList TString; TOption (TVariant [Some TF32; None; Some (TMap TU8 TString)]); TFlags 40; TFixed TU64 3]) gst0
   with Ok _ s' => stack s' = [] /\ (40 <=? length (evs s'))%nat = true | Err _ => False end.
 Proof. vm_compute. split; reflexivity. Qed.
+
+(** * the memory-mode lifting pushes exactly one operand, for every type *)
+Definition stk1 (s0 : gst) (st : list nat) : unit -> gst -> Prop :=
+  fun _ s' => exists v, stack s' = v :: st /\ frame s0 s'.
+
+Definition read_spec (canon : ty -> bool) (t : ty) : Prop :=
+  forall addr off s st, stack s = st -> ok_with (read canon t addr off) s (stk1 s st).
+
+Lemma ok_seq1 {B} (m : M unit) (k : M B) s st (Q : B -> gst -> Prop) :
+  ok_with m s (stk1 s st) ->
+  (forall s' v, stack s' = v :: st -> frame s s' -> ok_with k s' Q) ->
+  ok_with (bind m (fun _ => k)) s Q.
+Proof.
+  intros H1 H2. apply ok_bind. eapply ok_weaken; [exact H1|]. intros [] s' [v [Hs Hf]]. eapply H2; eassumption.
+Qed.
+
+Lemma load_ptr_len_ok t addr off s st : stack s = st ->
+  ok_with (load_ptr_len t addr off) s (fun _ s' => exists p l, stack s' = l :: p :: st /\ frame s s').
+Proof.
+  intros Hs. unfold load_ptr_len.
+  next_with ok_push'. next_with ok_emit1. cbn [results_len seq rev app] in *.
+  next_with ok_push'.
+  eapply ok_weaken; [eapply ok_emit1; [eassumption | reflexivity]|].
+  intros [] s4 [H1 H2]. cbn [results_len seq rev app] in H1. do 2 eexists. split; [exact H1 | fr].
+Qed.
+
+Lemma read_scalar_ok l i : operands_len i = 1 -> results_len i = 1 ->
+  forall addr off s st, stack s = st ->
+    ok_with (push addr ;;; emit (Load l off) ;;; emit i) s (stk1 s st).
+Proof.
+  intros Ho Hr addr off s st Hs.
+  next_with ok_push'. next_with ok_emit1. cbn [results_len seq rev app] in *.
+  eapply ok_weaken; [eapply ok_emit1; [eassumption | exact Ho]|].
+  intros [] s3 [H1 H2]. rewrite Hr in H1. cbn [seq rev app] in H1. eexists. split; [exact H1 | fr].
+Qed.
+
+Lemma lift_list_with_ok canon e (rd : nat -> asize -> M unit) :
+  (forall addr off s st, stack s = st -> ok_with (rd addr off) s (stk1 s st)) ->
+  forall s p l st, stack s = l :: p :: st -> ok_with (lift_list_with canon e rd) s (stk1 s st).
+Proof.
+  intros Hrd s p l st Hs. unfold lift_list_with.
+  destruct (canon e).
+  - eapply ok_weaken; [eapply ok_emit2; [exact Hs | reflexivity]|].
+    intros [] s1 [H1 H2]. cbn [results_len seq rev app] in H1. eexists. split; [exact H1 | fr].
+  - next_with ok_push_block'.
+    next_with ok_emit0. cbn [results_len seq rev app] in *.
+    apply ok_bind. eapply ok_pop'; [eassumption|]. intros s3 Hs3 Hf3.
+    eapply ok_seq1; [eapply Hrd; exact Hs3|]. intros s4 v Hs4 Hf4.
+    next_with ok_finish1.
+    eapply ok_weaken; [eapply ok_emit2; [eassumption | reflexivity]|].
+    intros [] s6 [H1 H2]. cbn [results_len seq rev app] in H1. eexists. split; [exact H1 | fr].
+Qed.
+
+Lemma lift_map_with_ok k v (rk rv : nat -> asize -> M unit) :
+  (forall addr off s st, stack s = st -> ok_with (rk addr off) s (stk1 s st)) ->
+  (forall addr off s st, stack s = st -> ok_with (rv addr off) s (stk1 s st)) ->
+  forall s p l st, stack s = l :: p :: st -> ok_with (lift_map_with k v rk rv) s (stk1 s st).
+Proof.
+  intros Hk Hv s p l st Hs. unfold lift_map_with.
+  next_with ok_push_block'.
+  next_with ok_emit0. cbn [results_len seq rev app] in *.
+  apply ok_bind. eapply ok_pop'; [eassumption|]. intros s3 Hs3 Hf3.
+  eapply ok_seq1; [eapply Hk; exact Hs3|]. intros s4 kv Hs4 Hf4.
+  eapply ok_seq1; [eapply Hv; exact Hs4|]. intros s5 vv Hs5 Hf5.
+  next_with ok_finish2.
+  eapply ok_weaken; [eapply ok_emit2; [eassumption | reflexivity]|].
+  intros [] s7 [H1 H2]. cbn [results_len seq rev app] in H1. eexists. split; [exact H1 | fr].
+Qed.
+
+Lemma read_arms_ok canon addr cs : Forall (OptP (read_spec canon)) cs ->
+  forall poff s st, stack s = st ->
+    ok_with ((fix read_arms (poff : asize) (cs : list (option ty)) {struct cs} : M unit :=
+                match cs with
+                | [] => ret tt
+                | c :: cs' =>
+                    push_block ;;;
+                    (match c with Some x => read canon x addr poff | None => ret tt end) ;;;
+                    finish_block (match c with Some _ => 1 | None => 0 end)%nat ;;;
+                    read_arms poff cs'
+                end) poff cs) s (stk s st).
+Proof.
+  induction 1 as [|c cs Hc Hcs IH]; intros poff s st Hs.
+  - apply ok_ret_stk; [exact Hs | apply frame_refl].
+  - next_with ok_push_block'.
+    destruct c as [t|].
+    + eapply ok_seq1; [eapply Hc; eassumption|]. intros s2 v Hs2 Hf2.
+      next_with ok_finish1.
+      eapply ok_weaken; [eapply (IH poff); eassumption|].
+      intros [] s4 [H1 H2]. split; [exact H1 | fr].
+    + eapply ok_seq; [apply ok_ret_stk; [eassumption | apply frame_refl]|]. intros s2 Hs2 Hf2.
+      next_with ok_finish0.
+      eapply ok_weaken; [eapply (IH poff); eassumption|].
+      intros [] s4 [H1 H2]. split; [exact H1 | fr].
+Qed.
+
+Lemma flags_load_loop_ok addr (f : nat -> asize) l : forall s st,
+  stack s = st ->
+  ok_with (mapM_ (fun i => push addr ;;; emit (Load LI32 (f i))) l) s
+          (fun _ s' => exists vals, length vals = length l /\ stack s' = vals ++ st /\ frame s s').
+Proof.
+  induction l as [|i l IH]; intros s st Hs.
+  - cbn [mapM_]. unfold ok_with, ret. exists []. split; [reflexivity | split; [exact Hs | apply frame_refl]].
+  - cbn [mapM_]. apply ok_bind. next_with ok_push'.
+    eapply ok_weaken; [eapply ok_emit1; [eassumption | reflexivity]|].
+    intros [] s2 [Hs2 Hf2]. cbn [results_len seq rev app] in Hs2.
+    eapply ok_weaken; [apply (IH s2 _ Hs2)|].
+    intros [] s3 [vals [Hl [Hs3 Hf3]]]. exists (vals ++ [nxt s']).
+    rewrite app_length, <- app_assoc. cbn [length app]. split; [lia | split; [exact Hs3 | fr]].
+Qed.
+
+Theorem read_ok canon : forall t, read_spec canon t.
+Proof.
+  induction t using ty_ind'; intros addr off s st Hs.
+  1-12,14,25-28: (cbn [read scalar_load lift_scalar_op];
+                  eapply read_scalar_ok; [reflexivity | reflexivity | exact Hs]).
+  - (* string *)
+    cbn [read]. apply ok_bind.
+    eapply ok_weaken; [eapply load_ptr_len_ok; exact Hs|].
+    intros [] s1 [p [l [Hs1 Hf1]]].
+    eapply ok_weaken; [eapply ok_emit2; [exact Hs1 | reflexivity]|].
+    intros [] s2 [H1 H2]. cbn [results_len seq rev app] in H1. eexists. split; [exact H1 | fr].
+  - (* list *)
+    cbn [read]. apply ok_bind.
+    eapply ok_weaken; [eapply load_ptr_len_ok; exact Hs|].
+    intros [] s1 [p [l [Hs1 Hf1]]].
+    eapply ok_weaken; [eapply (lift_list_with_ok canon t (read canon t) IHt); exact Hs1|].
+    intros [] s2 [v [H1 H2]]. eexists. split; [exact H1 | fr].
+  - (* fixed *)
+    cbn [read].
+    next_with ok_push_block'.
+    next_with ok_emit0. cbn [results_len seq rev app] in *.
+    apply ok_bind. eapply ok_pop'; [eassumption|]. intros s3 Hs3 Hf3.
+    eapply ok_seq1; [eapply IHt; exact Hs3|]. intros s4 v Hs4 Hf4.
+    next_with ok_finish1.
+    next_with ok_push'.
+    eapply ok_weaken; [eapply ok_emit1; [eassumption | reflexivity]|].
+    intros [] s7 [H1 H2]. cbn [results_len seq rev app] in H1. eexists. split; [exact H1 | fr].
+  - (* map *)
+    cbn [read]. apply ok_bind.
+    eapply ok_weaken; [eapply load_ptr_len_ok; exact Hs|].
+    intros [] s1 [p [l [Hs1 Hf1]]].
+    eapply ok_weaken; [eapply (lift_map_with_ok t1 t2 (read canon t1) (read canon t2) IHt1 IHt2); exact Hs1|].
+    intros [] s2 [v [H1 H2]]. eexists. split; [exact H1 | fr].
+  - (* record *)
+    cbn [read]. apply ok_bind.
+    assert (Hloop : forall cur s0 st0, stack s0 = st0 ->
+              ok_with ((fix read_each (ts : list ty) (cur : asize) {struct ts} : M unit :=
+                          match ts with
+                          | x :: ts' =>
+                              let o := align_to_arch cur (sa_align x) in
+                              read canon x addr (a_add off o) ;;; read_each ts' (a_add o (sa_size x))
+                          | [] => ret tt
+                          end) fs cur) s0
+                      (fun _ s' => exists vals, length vals = length fs /\ stack s' = vals ++ st0 /\ frame s0 s')).
+    { clear Hs. induction H as [|f fs Hf Hfs IHfs]; intros cur s0 st0 Hs0.
+      - unfold ok_with, ret. exists []. split; [reflexivity | split; [exact Hs0 | apply frame_refl]].
+      - cbn zeta. eapply ok_seq1; [eapply Hf; exact Hs0|]. intros s1 v Hs1 Hf1.
+        eapply ok_weaken; [eapply (IHfs _ s1 _ Hs1)|].
+        intros [] s2 [vals [Hl [Hs2 Hf2]]]. exists (vals ++ [v]).
+        rewrite app_length, <- app_assoc. cbn [length app]. split; [lia | split; [exact Hs2 | fr]]. }
+    eapply ok_weaken; [eapply (Hloop asize0 s st Hs)|].
+    intros [] s1 [vals [Hl [Hs1 Hf1]]].
+    eapply ok_weaken; [eapply (ok_emit_stk (RecordLift fs) s1 vals st Hs1); exact Hl|].
+    intros [] s2 [H1 H2]. cbn [results_len seq rev app] in H1. eexists. split; [exact H1 | fr].
+  - (* tuple *)
+    cbn [read]. apply ok_bind.
+    assert (Hloop : forall cur s0 st0, stack s0 = st0 ->
+              ok_with ((fix read_each (ts0 : list ty) (cur : asize) {struct ts0} : M unit :=
+                          match ts0 with
+                          | x :: ts' =>
+                              let o := align_to_arch cur (sa_align x) in
+                              read canon x addr (a_add off o) ;;; read_each ts' (a_add o (sa_size x))
+                          | [] => ret tt
+                          end) ts cur) s0
+                      (fun _ s' => exists vals, length vals = length ts /\ stack s' = vals ++ st0 /\ frame s0 s')).
+    { clear Hs. induction H as [|f fs Hf Hfs IHfs]; intros cur s0 st0 Hs0.
+      - unfold ok_with, ret. exists []. split; [reflexivity | split; [exact Hs0 | apply frame_refl]].
+      - cbn zeta. eapply ok_seq1; [eapply Hf; exact Hs0|]. intros s1 v Hs1 Hf1.
+        eapply ok_weaken; [eapply (IHfs _ s1 _ Hs1)|].
+        intros [] s2 [vals [Hl [Hs2 Hf2]]]. exists (vals ++ [v]).
+        rewrite app_length, <- app_assoc. cbn [length app]. split; [lia | split; [exact Hs2 | fr]]. }
+    eapply ok_weaken; [eapply (Hloop asize0 s st Hs)|].
+    intros [] s1 [vals [Hl [Hs1 Hf1]]].
+    eapply ok_weaken; [eapply (ok_emit_stk (TupleLift ts) s1 vals st Hs1); exact Hl|].
+    intros [] s2 [H1 H2]. cbn [results_len seq rev app] in H1. eexists. split; [exact H1 | fr].
+  - (* variant *)
+    cbn [read].
+    eapply ok_seq1.
+    { next_with ok_push'. next_with ok_emit1. cbn [results_len seq rev app] in *.
+      eapply ok_weaken; [eapply (read_arms_ok canon addr cs H); eassumption|].
+      intros [] s3 [H1 H2]. eexists. split; [exact H1 | fr]. }
+    intros s3 v Hs3 Hf3.
+    eapply ok_weaken; [eapply ok_emit1; [eassumption | reflexivity]|].
+    intros [] s4 [H1 H2]. cbn [results_len seq rev app] in H1. eexists. split; [exact H1 | fr].
+  - (* enum *)
+    cbn [read]. eapply read_scalar_ok; [reflexivity | reflexivity | exact Hs].
+  - (* option *)
+    cbn [read].
+    eapply ok_seq1.
+    { next_with ok_push'. next_with ok_emit1. cbn [results_len seq rev app] in *.
+      eapply ok_weaken.
+    { eapply (read_arms_ok canon addr (cases_of_option t)); [|eassumption].
+        unfold cases_of_option. constructor; [exact I | constructor; [exact IHt | constructor]]. }
+      intros [] s3 [H1 H2]. eexists. split; [exact H1 | fr]. }
+    intros s3 v Hs3 Hf3.
+    eapply ok_weaken; [eapply ok_emit1; [eassumption | reflexivity]|].
+    intros [] s4 [H1 H2]. cbn [results_len seq rev app] in H1. eexists. split; [exact H1 | fr].
+  - (* result *)
+    cbn [read].
+    eapply ok_seq1.
+    { next_with ok_push'. next_with ok_emit1. cbn [results_len seq rev app] in *.
+      eapply ok_weaken.
+    { eapply (read_arms_ok canon addr (cases_of_result ok err)); [|eassumption].
+        unfold cases_of_result. constructor; [assumption | constructor; [assumption | constructor]]. }
+      intros [] s3 [H1 H2]. eexists. split; [exact H1 | fr]. }
+    intros s3 v Hs3 Hf3.
+    eapply ok_weaken; [eapply ok_emit1; [eassumption | reflexivity]|].
+    intros [] s4 [H1 H2]. cbn [results_len seq rev app] in H1. eexists. split; [exact H1 | fr].
+  - (* flags *)
+    cbn [read]. apply ok_bind.
+    assert (Hloads : ok_with
+              (if (n =? 0)%N then ret tt
+               else if (n <=? 8)%N then push addr ;;; emit (Load LI32_8U off)
+               else if (n <=? 16)%N then push addr ;;; emit (Load LI32_16U off)
+               else mapM_ (fun i => push addr ;;; emit (Load LI32 (a_add_bytes off (N.of_nat i * 4))))
+                          (seq 0 (N.to_nat (flags_count n)))) s
+              (fun _ s' => exists vals, length vals = N.to_nat (flags_count n) /\ stack s' = vals ++ st /\ frame s s')).
+    { unfold flags_count.
+      destruct (n =? 0)%N eqn:E0.
+      { unfold ok_with, ret. exists []. split; [reflexivity | split; [exact Hs | apply frame_refl]]. }
+      destruct (n <=? 8)%N eqn:E8.
+      { assert (E16 : (n <=? 16)%N = true) by (apply N.leb_le; apply N.leb_le in E8; lia). rewrite E16.
+        next_with ok_push'. eapply ok_weaken; [eapply ok_emit1; [eassumption | reflexivity]|].
+        intros [] s2 [H1 H2]. cbn [results_len seq rev app] in H1. exists [nxt s']. split; [reflexivity | split; [exact H1 | fr]]. }
+      destruct (n <=? 16)%N eqn:E16.
+      { next_with ok_push'. eapply ok_weaken; [eapply ok_emit1; [eassumption | reflexivity]|].
+        intros [] s2 [H1 H2]. cbn [results_len seq rev app] in H1. exists [nxt s']. split; [reflexivity | split; [exact H1 | fr]]. }
+      eapply ok_weaken; [eapply (flags_load_loop_ok addr _ _ s st Hs)|].
+      intros [] s2 [vals [Hl [H1 H2]]]. exists vals. rewrite seq_length in Hl. auto. }
+    eapply ok_weaken; [exact Hloads|].
+    intros [] s1 [vals [Hl [Hs1 Hf1]]].
+    eapply ok_weaken; [eapply (ok_emit_stk (FlagsLift n) s1 vals st Hs1); exact Hl|].
+    intros [] s2 [H1 H2]. cbn [results_len seq rev app] in H1. eexists. split; [exact H1 | fr].
+Qed.
+
+Theorem lift_from_memory_never_panics canon t :
+  ok_with (lift_from_memory canon t) gst0 (fun _ s' => exists v, stack s' = [v]).
+Proof.
+  unfold lift_from_memory.
+  apply ok_bind. unfold ok_with at 1. cbn [fresh gst0 nxt seq Nat.add].
+  eapply ok_weaken; [eapply (read_ok canon t 0 asize0 _ []); reflexivity|].
+  intros [] s' [v [H _]]. exists v. exact H.
+Qed.
